@@ -493,27 +493,9 @@ Fixpoint tree_size (t : dtree) : nat :=
   match t with DNode _ k => S (fold_right (fun x acc => tree_size x + acc)%nat O k) end.
 Definition forest_size (ts : list dtree) : nat := fold_right (fun x acc => tree_size x + acc)%nat O ts.
 
-(* the rules collected from a macro body at each PASTE (compile_core_rules.go): only what can be
-   decided without the schema library: ENUM needs a name, enum names are unique *)
-Fixpoint collect_rules (ts : list dtree) (enums : list bytes) : cres (list bytes) :=
-  match ts with
-  | [] => COk enums
-  | t :: r =>
-    let d := tree_dir t in
-    if kind_eqb (d_kind d) KEnum then
-      let n := named d (bs "Name") in
-      if beq n [] then CErr (kw_err d CENameRequired)
-      else match d_body d with
-           | None => collect_rules r enums
-           | Some _ => if name_in n enums then CErr (kw_err d CEDupName) else collect_rules r (n :: enums)
-           end
-    else collect_rules r enums
-  end.
-
 Record pstate : Set := {
   ps_frames : list (directive * list dtree);
-  ps_roots : list dtree;
-  ps_enums : list bytes
+  ps_roots : list dtree
 }.
 
 Definition wrap_paste (d : directive) (e : cerr) : cerr :=
@@ -536,9 +518,7 @@ Fixpoint paste_list (fuel : nat) (m : macro_table) (ts : list dtree) (p : pstate
            if beq n [] then CErr (kw_err d CENameRequired)
            else match macro_lookup m n with
                 | None => CErr (kw_err d CEMacroNotFound)
-                | Some mt =>
-                  collect_rules (tree_kids mt) (ps_enums p) >>=c fun en =>
-                  paste_list f m (tree_kids mt) {| ps_frames := ps_frames p; ps_roots := ps_roots p; ps_enums := en |}
+                | Some mt => paste_list f m (tree_kids mt) p
                 end in
          match inner with
          | CErr e => CErr (wrap_paste d e)
@@ -547,11 +527,11 @@ Fixpoint paste_list (fuel : nat) (m : macro_table) (ts : list dtree) (p : pstate
        else
          process_context (ctx_fuel (ps_frames p)) d (ps_frames p) (ps_roots p) >>=c fun fr =>
          let depth := List.length (fst fr) in
-         paste_list f m (tree_kids t) {| ps_frames := fst fr; ps_roots := snd fr; ps_enums := ps_enums p |} >>=c fun p1 =>
+         paste_list f m (tree_kids t) {| ps_frames := fst fr; ps_roots := snd fr |} >>=c fun p1 =>
          if d_explicit d then
            (* core.currentContextDirective = dd.Parent *)
            let (fr2, rt2) := close_to (S (List.length (ps_frames p1))) (depth - 1) (ps_frames p1) (ps_roots p1) in
-           COk {| ps_frames := fr2; ps_roots := rt2; ps_enums := ps_enums p1 |}
+           COk {| ps_frames := fr2; ps_roots := rt2 |}
          else COk p1) >>=c fun p2 =>
       paste_list f m r p2
     end
@@ -561,25 +541,23 @@ Definition expand_fuel (ts : list dtree) (m : macro_table) : nat :=
   (* generous: the implementation itself is exponential on doubling chains *)
   1000 + 64 * (forest_size ts + fold_right (fun e acc => tree_size (snd e) + acc)%nat O m) * S (List.length m).
 
-(* compileCore up to processPaste; top-level ENUM rules are collected first (collectRules runs
-   AFTER processPaste in Go: order kept) *)
+(* compileCore up to processPaste (collectRules runs after it, over the expanded forest: Catalog.build) *)
 Definition expand (ts : list dtree) : cres (list dtree) :=
   collect_macro ts [] >>=c fun cm =>
   let (rest, m) := cm in
   let mfuel := (16 + 4 * fold_right (fun e acc => tree_size (snd e) + acc)%nat O m * S (List.length m))%nat in
   check_all_macros mfuel m (map fst m) [] >>=c fun _ =>
-  paste_list (expand_fuel rest m) m rest {| ps_frames := []; ps_roots := []; ps_enums := [] |} >>=c fun p =>
+  paste_list (expand_fuel rest m) m rest {| ps_frames := []; ps_roots := [] |} >>=c fun p =>
   COk (rev (close_all (List.length (ps_frames p)) (ps_frames p) (ps_roots p))).
 
-(* as expand, but also returns the top-level list before expansion (macros removed) and the
-   enum names registered while pasting *)
-Definition expand_full (ts : list dtree) : cres (list dtree * list dtree * list bytes * macro_table) :=
+(* as expand, but also returns the top-level list before expansion (macros removed) and the macro table *)
+Definition expand_full (ts : list dtree) : cres (list dtree * list dtree * macro_table) :=
   collect_macro ts [] >>=c fun cm =>
   let (rest, m) := cm in
   let mfuel := (16 + 4 * fold_right (fun e acc => tree_size (snd e) + acc)%nat O m * S (List.length m))%nat in
   check_all_macros mfuel m (map fst m) [] >>=c fun _ =>
-  paste_list (expand_fuel rest m) m rest {| ps_frames := []; ps_roots := []; ps_enums := [] |} >>=c fun p =>
-  COk (rest, rev (close_all (List.length (ps_frames p)) (ps_frames p) (ps_roots p)), rev (ps_enums p), m).
+  paste_list (expand_fuel rest m) m rest {| ps_frames := []; ps_roots := [] |} >>=c fun p =>
+  COk (rest, rev (close_all (List.length (ps_frames p)) (ps_frames p) (ps_roots p)), m).
 
 Definition scan_fuel_project (files : fsys) (content : bytes) : nat :=
   let total := fold_right (fun e acc => (match snd e with FFile c => List.length c | FDir => O end + acc)%nat) (List.length content) files in
